@@ -277,21 +277,26 @@ let on_proc (idx : int) (msg : message) (obs : string) : unit =
                   "reply delta is not the version-prefix of the sender's stale entries (or names a scheduled member)"
             | None -> ())
        | None -> ());
-      (* fresh heartbeat evidence, as observable from the dumps: a stored non-zero heartbeat that
-         strictly grew *)
-      List.iter
-        (fun (i, c) ->
-          if not (id_eqb i info.self) then
-            match before with
-            | Some b -> (
-                match nm_get i b.nodes with
-                | Some cb when not (neq cb.c_hb N0) && nless cb.c_hb c.c_hb ->
-                    let k = (idx, token_of_id i) in
-                    let cnt = match Hashtbl.find_opt fresh k with Some (n, _) -> n | None -> 0 in
-                    Hashtbl.replace fresh k (cnt + 1, !now)
-                | _ -> ())
-            | None -> ())
-        o.snap.nodes;
+      (* fresh heartbeat evidence: a digest entry strictly above the stored non-zero heartbeat
+         (the stored value is read from the dump taken before the message; a copy that a reset
+         emptied has heartbeat 0 again, so its next observation is a first one, not a fresh one) *)
+      (match msg, before with
+       | (Syn (_, dg) | SynAck (dg, _)), Some b ->
+           let foreign = match msg with Syn (cl, _) -> not (bytes_eqb cl (match o.reply with Some BadCluster -> [] | _ -> cl)) | _ -> false in
+           let rejected = (match o.reply with Some BadCluster -> true | _ -> false) in
+           ignore foreign;
+           if not rejected then
+             List.iter
+               (fun (i, g) ->
+                 if not (id_eqb i info.self) then
+                   match nm_get i b.nodes with
+                   | Some cb when not (neq cb.c_hb N0) && nless cb.c_hb g.g_hb ->
+                       let k = (idx, token_of_id i) in
+                       let cnt = match Hashtbl.find_opt fresh k with Some (n, _) -> n | None -> 0 in
+                       Hashtbl.replace fresh k (cnt + 1, !now)
+                   | _ -> ())
+               dg
+       | _ -> ());
       common_checks info before o.snap ~is_local:false;
       Hashtbl.replace snaps idx o.snap
   | _ -> ()
